@@ -1,6 +1,7 @@
 import OpcuaVerif.Model.C22
 import OpcuaVerif.Lemmas.C22
 import OpcuaVerif.Generated.C22Rows
+import OpcuaVerif.Lemmas.C22Rows
 
 /-!
 C22 — Keep-alives keep flowing and idle subscriptions expire on time.
@@ -581,6 +582,16 @@ theorem rows_sound (s s' : Subn) (t : Bool) (p : Params) (n : Nat) (a : Action)
              simp_all [generatedRows, applyEffs, applyEff, resetLife, resetKa, startTimer, cond15]
              done)
       · cases h; simp
+
+/-- **`update_state` IS the table in the Rust source** (regenerated obligation).  `generatedRows` is
+re-read from `subscription.rs` on every run: per row the states of its `match` arm, its guard
+(parsed: operators and constants of the counter comparisons included), its action and its effects,
+in source order.  Interpreting that table — initial panic, first row whose arm contains the state
+and whose guard holds, effects in order — equals the hand-written model of `update_state` for
+EVERY state, counter value, flag and input.  A changed guard (`> 1` → `>= 1`), action, or row
+order in the source makes this theorem fail. -/
+theorem rows_exact (s : Subn) (t : Bool) (p : Params) :
+    interpRows generatedRows s t p = updateState s t p := rows_table_eq s t p
 
 /-! ### Every history -/
 
